@@ -137,6 +137,22 @@ func init() {
 				if !own {
 					continue
 				}
+				// precise structural reading on the function itself (c13_rpcguard.go): early-return / un-nested / hoisted forms, either
+				// comparison direction; an unknown shape of the length comparison is a problem(), never a silently different value
+				if gok, own2, unsure := c13RpcGuard(fd, isRawCall); own2 {
+					raw++
+					switch {
+					case gok:
+						guardedRaw++
+					case unsure != "":
+						problem("api/rpc %s: %s — the fact rpcStringLengthGuard cannot be read", fd.Name.Name, unsure)
+						outside++
+					default:
+						outside++
+					}
+					continue
+				}
+				// the function does not decode the length itself: the guard may live in a same-package helper (inlined reading)
 				sawUint, sawGuard, rawGuarded := false, false, true
 				c13Walk(fd.Body, pkg, 2, map[*ast.FuncDecl]bool{fd: true}, func(n ast.Node) {
 					if c13CallName(n) == "UnmarshalUint" {
@@ -151,7 +167,8 @@ func init() {
 							if be, ok := m.(*ast.BinaryExpr); ok {
 								switch be.Op {
 								case token.GTR, token.LSS, token.GEQ, token.LEQ:
-									if strings.Contains(exprString(be.X), "len(") || strings.Contains(exprString(be.Y), "len(") {
+									both := strings.Replace(exprString(be.X)+" "+exprString(be.Y), "uint", "", -1)
+									if strings.Contains(both, "len(") && !strings.Contains(both, "cap(") && !strings.Contains(both, "int(") && !strings.Contains(both, "int64(") {
 										cmp = true
 									}
 								}
